@@ -9,7 +9,7 @@ from vf.model import declarations, lookup, resolution_order
 from vf.runner import Fail
 
 RULE = ('Hypothesis draws valid (shell model, configuration) pairs; every pair is built (must give '
-        'exactly the 8 expected files) and then *every applicable single-fault variation* of it is '
+        'exactly the 8 expected files, also when built a second time on the same parsed contents) and then *every applicable single-fault variation* of it is '
         'built as well (fault enumeration): unknown / non-component encapsulee; port type '
         'unresolvable / ambiguous / of the wrong kind; formal type likewise on an MTS port; '
         'selection naming an unknown port, a port under both semantics, ALL + something, mixed '
@@ -42,10 +42,12 @@ def _alarm(_sig, _frm):
     raise Timeout()
 
 
-def guarded_outcome(spec, model):
+def guarded_outcome(spec, model, fc=None):
     old = signal.signal(signal.SIGALRM, _alarm)
     signal.setitimer(signal.ITIMER_REAL, 30)
     try:
+        if fc is not None:
+            return cfgspec.outcome(spec, fc=fc)
         return cfgspec.outcome(spec, model=model)
     except Timeout:
         return 'hang', None
@@ -64,7 +66,17 @@ def expected_filenames(spec):
 
 
 def check_valid(sm, spec):
-    kind, res = guarded_outcome(spec, sm['model'])
+    # "valid inputs always succeed": also when the same parsed contents are built a second time
+    fc = cfgspec.parse_model(sm['model'])
+    first = guarded_outcome(spec, None, fc=fc)
+    kind, res = guarded_outcome(spec, None, fc=fc)
+    if first[0] == 'ok' and kind == 'err':
+        raise Fail(f'the second build of the same valid input on the same parsed contents is '
+                   f'rejected: {type(res).__name__}: {res}', f'valid-again:{type(res).__name__}')
+    if first[0] == 'ok' and kind == 'ok' and [f[0] for f in first[1]] != [f[0] for f in res]:
+        raise Fail('the second build of the same valid input returns other files',
+                   'valid-again:file-set')
+    kind, res = first
     if kind == 'hang':
         raise Fail('build of a valid configuration did not finish within 30 s', 'valid:hang')
     if kind == 'err':
